@@ -90,7 +90,104 @@ fn parse_one<L: Tab>(n: usize, s: &str) -> Result<&'static str, (String, String)
     }
 }
 
+/// a `fmt::Write` sink that fails once `cap` bytes have been written
+struct Limited {
+    buf: String,
+    cap: usize,
+}
+
+impl std::fmt::Write for Limited {
+    fn write_str(&mut self, s: &str) -> std::fmt::Result {
+        if self.buf.len() + s.len() > self.cap {
+            return Err(std::fmt::Error);
+        }
+        self.buf.push_str(s);
+        Ok(())
+    }
+}
+
+/// Display / LowerHex / Binary written into sinks that fail after k bytes (every k), each
+/// failure followed by an ordinary print of the same table and of its complement.
+fn sink_one<L: Tab + std::fmt::Display + std::fmt::LowerHex + std::fmt::Binary>(t: &TT) -> Verdict {
+    use std::fmt::Write as _;
+    let u = t.not();
+    let r = guarded(|| {
+        let (a, b): (L, L) = (mk_tt(t), mk_tt(&u));
+        let len = format!("{:b}", a).len();
+        let caps: Vec<usize> = if len <= 80 { (0..len).collect() } else { vec![0, 1, 3, 4, 5, 15, 16, 17, 20, 21, len / 2, len - 2, len - 1] };
+        for cap in caps {
+            for mode in 0..3 {
+                let mut sink = Limited { buf: String::new(), cap };
+                let _ = match mode {
+                    0 => write!(sink, "{}", a),
+                    1 => write!(sink, "{:x}", a),
+                    _ => write!(sink, "{:b}", a),
+                };
+                if let Some(bad) = [(&a, t), (&b, &u)].iter().find_map(|(l, m)| {
+                    let texts = (l.t_hex(), l.t_bin(), format!("{}", l), format!("{:b}", l));
+                    let want = (m.hex(), m.bin(), format!("Lut{}({})", m.n, m.hex()), format!("Lut{}({})", m.n, m.bin()));
+                    if texts != want {
+                        Some((format!("{:?}", want), format!("{:?}", texts)))
+                    } else {
+                        None
+                    }
+                }) {
+                    return fail(format!("after a write (mode {}) into a sink failing after {} bytes, printing gives {}", mode, cap, bad.0), bad.1);
+                }
+            }
+        }
+        Ok(())
+    });
+    match r {
+        Ok(v) => v,
+        Err(p) => fail("formatting into a failing sink returns an error, not a panic", p),
+    }
+}
+
+/// One tour per first size: printing and parsing at every ordered pair of sizes consecutively.
+pub fn tour(which: &str, k: usize, _thorough: bool) -> Result<super::xsize::Tour, String> {
+    if which != "sizes" {
+        return Err("no such tour".into());
+    }
+    let sizes: Vec<usize> = (0..=11).collect();
+    let a0 = *sizes.get(k).ok_or("no such tour")?;
+    let mut t = super::xsize::Tour::new(format!("sizes:{}", k));
+    for s in super::xsize::size_pairs_from(a0, &sizes) {
+        let pats = alpha::word_patterns(s, 0, 0);
+        let f = pats[pats.len() - 1].clone();
+        let width = std::cmp::max(1, nbits(s) / 4);
+        let strings: Vec<String> = vec![f.hex(), f.not().hex(), "f".repeat(width), "0".repeat(width + 1), "g".repeat(width), String::new()];
+        for st in [false, true] {
+            let f2 = f.clone();
+            t.push(format!("{} print n={}", if st { "LutN" } else { "Lut" }, s), move || {
+                fn go<L: Tab>(t: &TT) -> Verdict {
+                    print_one::<L>(t)
+                }
+                for_type!(st, f2.n, go(&f2))
+            });
+            for sx in &strings {
+                let s2 = sx.clone();
+                t.push(format!("{} parse n={} {:?}", if st { "LutN" } else { "Lut" }, s, if s2.len() > 20 { &s2[..20] } else { &s2[..] }), move || {
+                    fn go<L: Tab>(n: usize, s: &str) -> Verdict {
+                        parse_one::<L>(n, s).map(|_| ())
+                    }
+                    for_type!(st, s, go(s, &s2))
+                });
+            }
+        }
+    }
+    Ok(t)
+}
+
 pub fn replay(case: &Case) -> Result<Verdict, String> {
+    if case.opt("kind") == Some("tour") {
+        return super::xsize::replay(case, &tour);
+    }
+    if case.opt("kind") == Some("sink") {
+        let n = case.usize("n")?;
+        let t = TT::from_words(n, &case.words("t")?).ok_or("t malformed")?;
+        return Ok(sink_dispatch(parse_ty(case.get("ty")?)?, &t));
+    }
     let st = parse_ty(case.get("ty")?)?;
     let n = case.usize("n")?;
     match case.get("kind")? {
@@ -370,6 +467,24 @@ fn edits<L: Tab>(run: &Run, st: bool, n: usize) {
     );
 }
 
+fn sink_dispatch(st: bool, t: &TT) -> Verdict {
+    if !st {
+        return sink_one::<Lut>(t);
+    }
+    match t.n {
+        0 => sink_one::<volute::Lut0>(t),
+        1 => sink_one::<volute::Lut1>(t),
+        2 => sink_one::<volute::Lut2>(t),
+        3 => sink_one::<volute::Lut3>(t),
+        4 => sink_one::<volute::Lut4>(t),
+        5 => sink_one::<volute::Lut5>(t),
+        6 => sink_one::<volute::Lut6>(t),
+        7 => sink_one::<volute::Lut7>(t),
+        8 => sink_one::<volute::Lut8>(t),
+        _ => Ok(()),
+    }
+}
+
 pub fn run(run: &Run) {
     run.set_rule("printing: state = table, transition = each text form (+ parse of the printed text); parsing: state = string, transition = from_hex_string; non-trivial = a string that is accepted, or whose rejection the model decides by something other than 'no table at all'; outcomes = {ok, ok-upper, err, err-upper}");
     run.assume("reference model: digit-by-digit rendering and parsing of the function (model::tt hex/bin/parse_hex); an upper-case hex digit may be accepted (same meaning) or rejected");
@@ -442,4 +557,21 @@ pub fn run(run: &Run) {
             ed::<volute::Lut>(run, false, n);
         }
     }
+    run.section_seq("SINKS Display/LowerHex/Binary into sinks failing after k bytes (every k), n=0..=8, both types", false, "two tables per size; every byte count up to the text length (13 counts for long texts); after each failed write the table and its complement are printed again by every route", |l| {
+        for n in 0..=8usize {
+            let pats = alpha::word_patterns(n, 0, 0);
+            for t in [pats[pats.len() - 1].clone(), TT::from_fn(n, |m| alpha::popcount(m) % 2 == 1)] {
+                for st in [false, true] {
+                    l.states += 1;
+                    l.transitions += 1;
+                    l.validated += 1;
+                    match sink_dispatch(st, &t) {
+                        Ok(()) => l.nontrivial += 1,
+                        Err(v) => l.violation(format!("{:02}|{}|sink|{}", n, tyname(st), fmt_words(&t.w)), "C09/print/after-failed-write", format!("ty={};kind=sink;n={};t={}", tyname(st), n, fmt_words(&t.w)), v.0, v.1),
+                    }
+                }
+            }
+        }
+    });
+    super::xsize::run_tours(run, "C09", "sizes (printing by every route and parsing 6 strings per size, every ordered pair of sizes 0..=11 consecutively)", "both types; results must not depend on what was printed or parsed before on the thread", 12, &|k| tour("sizes", k, false).unwrap());
 }
